@@ -201,12 +201,20 @@ def sched_cases(draw):
 
 
 # ------------------------------------------------------------------------------
+@st.composite
+def worker_submit_cases(draw):
+    return {'kind': 'worker_submit', 'ranks': draw(st.integers(1, 4)), 'cores': draw(st.integers(1, 8)),
+            'gpus': draw(st.integers(0, 2)), 'mem': draw(st.sampled_from([0, 0, 512, 4096])),
+            'deprecated': draw(st.booleans()), 'mixed': draw(st.booleans())}
+
+
 def parts(tier):
     return [Part('dispatch_py', dispatch_cases(False), quick=600, thorough=3000),
             Part('dispatch_sh', dispatch_cases(True),  quick=140, thorough=500),
             Part('worker_streams', worker_cases(),     quick=600, thorough=3000),
             Part('master_streams', master_cases(),     quick=400, thorough=2500),
-            Part('sched_forwarding', sched_cases(),    quick=300, thorough=2000)]
+            Part('sched_forwarding', sched_cases(),    quick=300, thorough=2000),
+            Part('worker_submission', worker_submit_cases(), quick=120, thorough=600)]
 
 
 def run_case(case):
@@ -219,11 +227,13 @@ def run_case(case):
         return c20_master.run_master_case(case)
     if kind == 'sched':
         return c20_sched.run_sched_case(case)
+    if kind == 'worker_submit':
+        return c20_master.run_worker_submit(case)
     res = CaseResult()
     return res
 
 
 def normalise(case):
-    if not isinstance(case, dict) or case.get('kind') not in ('dispatch', 'worker', 'master', 'sched'):
+    if not isinstance(case, dict) or case.get('kind') not in ('dispatch', 'worker', 'master', 'sched', 'worker_submit'):
         return None
     return case
